@@ -582,6 +582,10 @@ INT_RANGE = {"uint8": (0, 2 ** 8 - 1), "int8": (-2 ** 7, 2 ** 7 - 1), "uint16": 
 def _st_astype(self, dtype, **k):
     d = as_dtype(dtype)
     if d.name == self.dtype.name:
+        if _f_contiguous(self):  # the copy keeps the memory layout (order='K')
+            rev = list(reversed(range(self.ndim)))
+            packed = self.permute(rev)
+            return STensor(list(packed.flat()), list(range(packed.numel())), list(packed.shape), self.dtype).permute(rev)
         return self.clone()
     if d.name in INT_RANGE and self.dtype.name in INT_RANGE:
         (lo_s, hi_s), (lo_d, hi_d) = INT_RANGE[self.dtype.name], INT_RANGE[d.name]
@@ -610,10 +614,27 @@ def _st_astype(self, dtype, **k):
     out = self.type(d)
     if out is self:
         out = self.clone()
+    if _f_contiguous(self):
+        # numpy's astype keeps the memory layout (order='K'): a Fortran-contiguous array stays Fortran-contiguous
+        rev = list(reversed(range(self.ndim)))
+        packed = out.permute(rev)
+        packed = STensor(list(packed.flat()), list(range(packed.numel())), list(packed.shape), d)
+        return packed.permute(rev)
     return STensor(list(out.flat()), list(range(out.numel())), list(out.shape), d)
 
 
+def _f_contiguous(t) -> bool:
+    """numpy's F_CONTIGUOUS and not C_CONTIGUOUS: the reversed-axes view is densely packed (e.g. ``a.T`` of a packed array)."""
+    if t.ndim < 2 or t.is_contiguous():
+        return False
+    return t.permute(list(reversed(range(t.ndim)))).is_contiguous()
+
+
 def _st_tobytes(self, order="C"):
+    # numpy: 'C' (default) logical row-major order whatever the memory layout; 'F' column-major; 'A' = 'F' iff the array is Fortran
+    # contiguous (and not C contiguous), else 'C'
+    if order == "F" or (order in ("A", "K") and _f_contiguous(self)):
+        return Blob(list(self.permute(list(reversed(range(self.ndim)))).flat()), self.dtype)
     return Blob(list(self.flat()), self.dtype)
 
 
